@@ -13,6 +13,10 @@ type Explorer struct {
 	Shard    int
 	Shards   int
 	MaxExecs int64 // 0 = unlimited; reaching it marks the run capped
+	// Stop, when set, is polled before every execution: returning true ends the
+	// exploration early (used once a new violation was reported).
+	Stop    func() bool
+	Stopped bool
 
 	Executions int64
 	MaxPoints  int
@@ -92,6 +96,10 @@ func (e *Explorer) Replay(mk func() Scenario, choices []int) (*Outcome, string, 
 func (e *Explorer) explore(mk func() Scenario, prefix []int, used int, onFound func(Found), onExec func(*Outcome, string), depth int) {
 	if e.MaxExecs > 0 && e.Executions >= e.MaxExecs {
 		e.Capped = true
+		return
+	}
+	if e.Stopped || (e.Stop != nil && e.Stop()) {
+		e.Stopped = true
 		return
 	}
 	out, fp, detail := e.runOne(mk, prefix, false)
